@@ -28,6 +28,7 @@ RULE = ("random operation histories (length <= 12; all histories of length <= 3 
         "Handle states the property does not fix (tool closed before its first step, abandoned tools) are tracked as "
         "unknown and resolved by the next observation. non-trivial = history with a tool or close operation followed "
         "by a later observation; distinct = (underlying flavour, history)")
+RULE += (' Also: adapter and future-like underlying iterators; a second task closing the handle while a read through it is pending; scopes (scoped_iter) opened over a borrowed handle, the ended scoped handle staying under observation; tools whose own callable fails while they hold the handle; reads through a bound __anext__ taken before the first item; islice with an unaligned stop.')
 ASSUMPTIONS = ["laziness of the tools themselves is C05's concern; here the stdlib twin predicts how many items a tool takes",
                "athrow is not part of the property's operation list and is not generated"]
 EXHAUSTIVE_SUBSPACES = 'all histories of length <= 3 (thorough: 4) over a 13-operation alphabet'
